@@ -119,8 +119,61 @@ func script(seed int64, idx int) {
 			sim.Mutate("advance", func(s *evmsim.Sim) { s.AdvanceHead(target) })
 			tr(fmt.Sprintf("head jumps to %d (block %d + %d)", target, blk.Number, target-blk.Number))
 			vlib.CDistinct("head_jumps", fmt.Sprintf("%s/jump=%d/cl=%d", md, jump, cl))
-		case x == 8 && !allowFaults: // the receipt lookup fails transiently a few times, heads keep coming one by one
-			cl := []uint8{0, 1}[rng.Intn(2)]
+		case x == 10 && !allowFaults && len(txs) > 0: // a deep reorg re-mines an old transaction; the first lookup for the new inclusion fails transiently
+			tx := txs[rng.Intn(len(txs))]
+			if tx.Block == nil || tx.Status != 1 || exp[tx.Hash] == nil {
+				break
+			}
+			sim.Mutate("advance", func(s *evmsim.Sim) { s.AdvanceHead(s.Head + 150) })
+			h.Quiesce(2, 20*time.Second)
+			k := 1 + rng.Intn(2)
+			var nb *evmsim.Block
+			sim.Mutate("deep-reorg", func(s *evmsim.Sim) {
+				base := s.CountLocked("getTransactionReceipt")
+				s.Faults["getTransactionReceipt"] = map[int]string{}
+				for i := 1; i <= k; i++ {
+					s.Faults["getTransactionReceipt"][base+i] = "error"
+				}
+				_, nb = s.ReplaceBlock(tx.Block.Number, true)
+			})
+			for _, e := range exp {
+				if e.tx.Block == nil {
+					e.block = nil
+				} else if e.tx.Block != e.block {
+					e.block = e.tx.Block
+				}
+			}
+			tr(fmt.Sprintf("head +150, then block %d is replaced (tx moved) and the next %d receipt lookups fail transiently; heads +1 x%d", nb.Number, k, k+3))
+			vlib.CCount("deep_reorg_with_transient_failure", 1)
+			vlib.CCount("reorgs", 1)
+			for i := 0; i < k+3; i++ {
+				h.Quiesce(2, 20*time.Second)
+				sim.Mutate("advance", func(s *evmsim.Sim) { s.AdvanceHead(s.Head + 1) })
+			}
+			sim.WithLock(func() { delete(sim.Faults, "getTransactionReceipt") })
+		case x == 9 && rng.Intn(2) == 0: // mined but not yet at the depth the watcher reads (e.g. not finalized): re-observed right away
+			ahead := uint64(1 + rng.Intn(5))
+			cl := cls[rng.Intn(len(cls))]
+			var tx *evmsim.Tx
+			var blk *evmsim.Block
+			sim.Mutate("mine-ahead", func(s *evmsim.Sim) {
+				var hb [32]byte
+				rng.Read(hb[:])
+				tx = &evmsim.Tx{Hash: ethcommon.Hash(hb), Status: 1, Note: "core", Logs: []*evmsim.LogSpec{mkLog("core", cl)}}
+				blk = s.Include(tx, s.Head+ahead) // the served head stays behind
+			})
+			txs = append(txs, tx)
+			exp[tx.Hash] = &expectation{tx: tx, log: tx.Logs[0], block: blk, note: fmt.Sprintf("cl=%d, mined %d blocks ahead of the served head", cl, ahead)}
+			tr(fmt.Sprintf("mine core tx=%x cl=%d in block %d, %d ahead of the served head; reobserve it at once", tx.Hash[:4], cl, blk.Number, ahead))
+			vlib.CCount("mined_ahead_of_head", 1)
+			h.Quiesce(2, 20*time.Second)
+			if !h.Reobserve(tx.Hash, 25*time.Second) {
+				vlib.CFinding("reobserve:request-not-handled-within-watchdog", map[string]interface{}{"script": desc, "trace": trace})
+				return
+			}
+			vlib.CCount("reobservation_requests", 1)
+		case (x == 8 || x == 18) && !allowFaults: // the receipt lookup fails transiently a few times, heads keep coming one by one
+			cl := []uint8{0, 1, 100, 200}[rng.Intn(4)]
 			k := 1 + rng.Intn(3)
 			var tx *evmsim.Tx
 			var blk *evmsim.Block
@@ -128,15 +181,21 @@ func script(seed int64, idx int) {
 				var hb [32]byte
 				rng.Read(hb[:])
 				tx = &evmsim.Tx{Hash: ethcommon.Hash(hb), Status: 1, Note: "core", Logs: []*evmsim.LogSpec{mkLog("core", cl)}}
-				if s.Faults["getTransactionReceipt"] == nil {
-					s.Faults["getTransactionReceipt"] = map[int]string{}
-				}
-				base := s.CountLocked("getTransactionReceipt")
-				for i := 1; i <= k; i++ {
-					s.Faults["getTransactionReceipt"][base+i] = "error"
-				}
 				blk = s.Include(tx, s.Head+1)
 				s.AdvanceHead(blk.Number)
+			})
+			// walk the head to just below the required depth first (no lookup happens before it is reached)
+			if need := uint64(cl); md == "bsc" && need > 1 {
+				h.Quiesce(2, 20*time.Second)
+				sim.Mutate("advance", func(s *evmsim.Sim) { s.AdvanceHead(blk.Number + need - 1) })
+				h.Quiesce(2, 20*time.Second)
+			}
+			sim.WithLock(func() {
+				base := sim.CountLocked("getTransactionReceipt")
+				sim.Faults["getTransactionReceipt"] = map[int]string{}
+				for i := 1; i <= k; i++ {
+					sim.Faults["getTransactionReceipt"][base+i] = "error"
+				}
 			})
 			txs = append(txs, tx)
 			exp[tx.Hash] = &expectation{tx: tx, log: tx.Logs[0], block: blk, note: fmt.Sprintf("cl=%d, next %d receipt lookups fail transiently, heads +1 each", cl, k)}
